@@ -92,7 +92,7 @@ macro_rules! mutnum_ops {
             (4, true) => $v.try_extend_from_within_copy(form_range(a, b, $v.len())).expect("try_extend_from_within_copy"),
             (5, false) => $v.extend_from_within_clone(form_range(a, b, $v.len())),
             (5, true) => $v.try_extend_from_within_clone(form_range(a, b, $v.len())).expect("try_extend_from_within_clone"),
-            (6, _) => $v.extend(Hinted { inner: vals.to_vec().into_iter(), cap: $hint, lie: None }),
+            (6, _) => $v.extend(Hinted { inner: vals.to_vec().into_iter(), cap: $hint, lie: None, panic_at: None, calls: 0 }),
             (7, false) => $v.resize(a, vals[0]),
             (7, true) => $v.try_resize(a, vals[0]).expect("try_resize"),
             (8, false) => {
